@@ -414,8 +414,79 @@ Example C01_example7_lua_side :
   end.
 Proof. vm_compute. split; reflexivity. Qed.
 
+(* ---- an eighth program (stage 4c): every activation of a recursive function has its own local and its own closure ----
+     f :: fn d: int -> int do
+       acc := d * 10
+       add :: fn k: int -> int do acc += k  acc end
+       r :: if d > 0 do f(d - 1) else 0 end      -- the inner activations have their own acc and add
+       print(add(r))
+       acc
+     end
+     start :: fn do print(f(2)) end                                                               *)
+Definition ex_prog8 : resolved :=
+  mkResolved
+    [mkVar 0 "print" sp0 true Const; mkVar 1 "f" sp0 true Const; mkVar 2 "start" sp0 true Const; mkVar 3 "== STACK ==" sp0 false Const;
+     mkVar 4 "d" sp0 false Const; mkVar 5 "acc" sp0 false Mutable; mkVar 6 "add" sp0 false Const; mkVar 7 "k" sp0 false Const;
+     mkVar 8 "r" sp0 false Const]
+    [SExternalDefinition "print" 0 Const (TImplied sp0) sp0;
+     SDefinition "f" 1 Const (TImplied sp0)
+       (EFunction "lambda" [("d"%string, 4%N, sp0, TImplied sp0)] (TImplied sp0)
+          [SDefinition "acc" 5 Mutable (TImplied sp0) (EBinOp Mul (ERead 4 sp0) (EInt 10 sp0) sp0) sp0;
+           SDefinition "add" 6 Const (TImplied sp0)
+             (EFunction "lambda" [("k"%string, 7%N, sp0, TImplied sp0)] (TImplied sp0)
+                [SAssignment Add (ERead 5 sp0) (ERead 7 sp0) sp0;
+                 SStatementExpression (ERead 5 sp0) sp0] false sp0) sp0;
+           SDefinition "r" 8 Const (TImplied sp0)
+             (EIf [IfBranch (Some (EBinOp Greater (ERead 4 sp0) (EInt 0 sp0) sp0))
+                     [SStatementExpression (Resolved.ECall (ERead 1 sp0) [EBinOp Sub (ERead 4 sp0) (EInt 1 sp0) sp0] sp0) sp0] sp0;
+                   IfBranch None [SStatementExpression (EInt 0 sp0) sp0] sp0] sp0) sp0;
+           SStatementExpression (Resolved.ECall (ERead 0 sp0) [Resolved.ECall (ERead 6 sp0) [ERead 8 sp0] sp0] sp0) sp0;
+           SStatementExpression (ERead 5 sp0) sp0]
+          false sp0) sp0;
+     SDefinition "start" 2 Const (TImplied sp0)
+       (EFunction "lambda" [] (TImplied sp0)
+          [SStatementExpression (Resolved.ECall (ERead 0 sp0) [Resolved.ECall (ERead 1 sp0) [EInt 2 sp0] sp0] sp0) sp0]
+          false sp0) sp0].
+
+Example C01_example8_hypotheses :
+  frag 30 ex_prog8 = true /\
+  (exists code, lower 30 ex_prog8 = Ok code) /\
+  SyltSem.run 60 ex_prog8 = mkRun ["0"; "10"; "30"; "30"]%string ODone.
+Proof. split; [vm_compute; reflexivity | split; [eexists; vm_compute; reflexivity | vm_compute; reflexivity]]. Qed.
+
+(* the theorem at work (no Lua-side computation): the closures of ex_prog7 share `n` with start and see its later
+   assignment; the activations of f in ex_prog8 each have their own `acc` *)
+Theorem C01_closures_share_mutable_local_by_theorem code :
+  lower 30 ex_prog7 = Ok code ->
+  exists m, forall m', (m <= m')%nat ->
+    let out := LuaCore.run_block Lua53 m' (chunk_ast code) in
+    o_trace out = ["3"; "31"; "65"; "33"]%string /\ o_final out = FDone.
+Proof.
+  intros Hl.
+  assert (Hf : frag 30 ex_prog7 = true) by (vm_compute; reflexivity).
+  assert (Hr : SyltSem.run 40 ex_prog7 = mkRun ["3"; "31"; "65"; "33"]%string ODone) by (vm_compute; reflexivity).
+  destruct (C01_fragment_preservation 30 ex_prog7 code 40 _ Hf Hl Hr I) as (m & Hm).
+  exists m. intros m' Hle. specialize (Hm m' Hle). cbv zeta in *. destruct Hm as [Ht Hfin]. split; [exact Ht|].
+  cbn [r_final] in Hfin. destruct (o_final _); try contradiction. reflexivity.
+Qed.
+
+Theorem C01_activations_own_locals_by_theorem code :
+  lower 30 ex_prog8 = Ok code ->
+  exists m, forall m', (m <= m')%nat ->
+    let out := LuaCore.run_block Lua53 m' (chunk_ast code) in
+    o_trace out = ["0"; "10"; "30"; "30"]%string /\ o_final out = FDone.
+Proof.
+  intros Hl.
+  assert (Hf : frag 30 ex_prog8 = true) by (vm_compute; reflexivity).
+  assert (Hr : SyltSem.run 60 ex_prog8 = mkRun ["0"; "10"; "30"; "30"]%string ODone) by (vm_compute; reflexivity).
+  destruct (C01_fragment_preservation 30 ex_prog8 code 60 _ Hf Hl Hr I) as (m & Hm).
+  exists m. intros m' Hle. specialize (Hm m' Hle). cbv zeta in *. destruct Hm as [Ht Hfin]. split; [exact Ht|].
+  cbn [r_final] in Hfin. destruct (o_final _); try contradiction. reflexivity.
+Qed.
+
 Print Assumptions C01_fragment_preservation.
 Print Assumptions C01_fragment_preservation_text.
+Print Assumptions C01_activations_own_locals_by_theorem.
 
 (* ---- source tie: the hand-written model behind these theorems mirrors the files below; the digests of their
    functions regenerated from /repo on this run equal the reviewed ones (coq/Doc/DocSrcDigest.v).  Any edit of
